@@ -50,6 +50,18 @@ INFO = {
  "C11r3-consumed-trim-80": ("C11", "enterBracket_doccomment trims the 'consumed' list when it exceeds 80 entries, dropping the pending invocation", "more than 26 documented commands in one file; the 27th is a test command: emitted twice"),
  "C13r3-walk-depth-cap": ("C13", "os.walk loop clears subdirs below MAX_WALK_DEPTH = 8 (framed as symlink-cycle protection)", "a tree with 10 or more nested directory levels"),
  "C20r3-indent-cache-off-by-one": ("C20", "get_indents() uses a precomputed table for levels 0-7 and an off-by-one recursion beyond", "directives nested 8 or more levels deep"),
+ "C04r4-generic-args-sorted-by-column": ("C04", "process_generic_command merges single arguments and groups by sorting on the start token's COLUMN", "a documented generic command with a parenthesised group whose argument list is spread over several lines"),
+ "C06r4-skip-parse-when-nothing-to-document": ("C06", "Documenter.process() skips lexing/parsing when all include_undocumented_* options are off and the text holds no '#[[['", "all ten include_undocumented_* options off + a faulty file without any doccomment"),
+ "C07r4-drop-lines-shorter-than-indent": ("C07", "clean_doc_lines drops doccomment lines shorter than the block indentation", "an indented doccomment with a physically empty line (e.g. before a literal block)"),
+ "C08r4-blank-doccomment-not-consumed": ("C08", "enterDocumented_command returns early for a blank doccomment on a kind that has an include option", "a command carrying an empty doccomment + its include_undocumented_<kind> option off: the entry disappears"),
+ "C10r4-duplicate-option-dropped": ("C10", "process_option skips an undocumented option() whose name already has an entry", "the same option name declared twice, the later declaration undocumented"),
+ "C12r4-prefix-rstrip-separator": ("C12", "document_single_file joins prefix.rstrip(separator) + separator + name", "a prefix that ends with (a character of) the configured separator"),
+ "C14r4-shallow-copy-index-titles": ("C14", "document(): deepcopy -> copy of the settings (derived prefix leaks to the next input)", "two directory inputs in one run without explicit prefix: the second tree's index titles carry the first tree's name"),
+ "C15r4-exclude-union-dropped": ("C15", "main() keeps only the resolved exclude_filters list instead of the union of all sources", "exclude patterns in a settings file AND -e on the command line"),
+ "C16r4-cli-section-overwrite": ("C16", "command-line options are overlaid section by section: each option overwrites its whole section dict", "-r and -e together on the command line (the only two flags of one section): -r is lost"),
+ "C17r4-exclude-matches-cwd-relative": ("C17", "exclusion also matches the pattern against the path relative to the current working directory", "an exclude pattern sensitive to the cwd-relative spelling + a change of working directory"),
+ "C18r4-cwd-default-argument": ("C18", "config_template(cwd=os.getcwd()) default argument evaluated at import", "relative -o with the process having changed directory since `import cminx`: pages land outside the requested directory"),
+ "C19r4-early-return-without-modules": ("C19", "cminx_gen_rst returns early when file(GLOB_RECURSE) finds no *.cmake below a directory input", "a directory without lower-case *.cmake files + settings that would document it anyway, or arguments that make CMinx fail"),
  "C18r2-sort-by-splitext": ("C18", "files sorted by (stem, extension) instead of by name", "a directory with names like Foo.cmake and Foo-x.cmake: stdout page order is not the sorted name order"),
 }
 
@@ -73,7 +85,7 @@ for name, (prop, change, needs) in INFO.items():
     d = os.path.join(R, "seeded", name)
     if not os.path.isdir(d):
         continue
-    r2 = "r2" if "r2-" in name else ("r3" if "r3-" in name else "")
+    r2 = "r2" if "r2-" in name else ("r3" if "r3-" in name else ("r4" if "r4-" in name else ""))
     after = parse(os.path.join(R, ".logs", "seed%s_%s.log" % (r2, prop)))
     before = parse(os.path.join(R, ".logs", "seed%sbefore_%s.log" % (r2, prop)))
     meta = {"breaks_property": prop, "change": change, "needs_to_manifest": needs,
